@@ -118,7 +118,7 @@ func (fr *frame) execInstr(st *state, in ssa.Instruction) {
 			if fr.sweepOn() {
 				fr.oblige(st, "idx", fr.anchorText(v.Pos(), "idx"), v.Pos(), fmt.Sprintf("(and (<= 0 %s) (< %s (sllen %s)))", i, i, s), "index in range")
 			}
-			fr.locs[v] = &Loc{key: u.arrKey(xt.Elem()), sort: es, idx: []string{app("sref", s), fmt.Sprintf("(+ (soff %s) %s)", s, i)}}
+			fr.locs[v] = &Loc{key: u.arrKey(xt.Elem()), sort: es, idx: []string{app("sref", s), fmt.Sprintf("(sidx (soff %s) %s)", s, i)}}
 		case *types.Pointer:
 			at, ok := xt.Elem().Underlying().(*types.Array)
 			if !ok {
